@@ -65,9 +65,10 @@ def H_atom(p):
 def geometry(ctx, R):
     P = ctx.P
     for backend in (SVG, TEX):
+      for border in (False, True):
         for d in DIRECTIONS:
-            p = emit.pipe(ctx, backend, d, n=2)
-            tagb = "%s %s" % ("svg" if backend == SVG else "tex", d)
+            p = emit.pipe(ctx, backend, d, n=2, show_border=border)
+            tagb = "%s %s%s" % ("svg" if backend == SVG else "tex", d, " border" if border else "")
             if not p.nodes:
                 R.bad("C08.ALONG", tagb + "|pipeline", "", "Timeline.compute() does not return (nodes, renderer): %s" % show(p.compute_result))
                 continue
